@@ -976,7 +976,7 @@ func (e *Engine) canonKey(k Value) string {
 	switch x := k.(type) {
 	case *Term:
 		if !x.IsConst() {
-			panic(engineErr("event mode: symbolic key used on a shared map (keys must be concrete in concurrency harnesses)"))
+			return fmt.Sprintf("sym:t%d", x.ID) // same naming as resolveKey gives a symbolic key it adds to the universe
 		}
 		return constSMT(x)
 	case *StrVal:
@@ -1342,6 +1342,20 @@ func (e *Engine) evRunThreads(fr *frame) {
 		}
 		ev.reg = rg
 		ev.run.reg = rg
+	}
+	// symbolic keys of the setup maps are the first members of their key universes: a symbolic key a thread
+	// uses later resolves to the FIRST equal member, so the initial content (attached to the setup key) and
+	// every later access agree on the slot also when two keys are equal in the model (hash collisions)
+	for _, m := range ev.setupMaps {
+		n, ok := e.mapName(m)
+		if !ok {
+			continue
+		}
+		for _, en := range m.Entries {
+			if t, isTerm := en.K.(*Term); isTerm && !t.IsConst() && !en.Deleted {
+				ev.reg.addMapKey(n, e.canonKey(en.K), en.K)
+			}
+		}
 	}
 	if ev.options["nofuse"] {
 		ev.reg.noFuse = true
